@@ -53,18 +53,54 @@ theorem cases_dominate (pt : List Int) (k : Nat) (perm : List Nat) (h : Partitio
 
 /-! ### unique column names -/
 
-/-- `Counter`-based suffixing of `Phenotypes.write` -/
-def uniqFrom (seen : List String) : List String → List String
+/-- the scheme before fix F27: `Counter`-based suffixing, blind to suffixed forms that are names in their own right -/
+def uniqFromOld (seen : List String) : List String → List String
   | [] => []
   | n :: rest =>
     let c := seen.count n
-    (if c = 0 then n else n ++ "-" ++ toString c) :: uniqFrom (n :: seen) rest
+    (if c = 0 then n else n ++ "-" ++ toString c) :: uniqFromOld (n :: seen) rest
 
-def uniqNames (names : List String) : List String := uniqFrom [] names
+def uniqNamesOld (names : List String) : List String := uniqFromOld [] names
 
-/-- KF2: the scheme is not injective -/
-theorem uniqNames_collision_witness : uniqNames ["a", "a", "a-1"] = ["a", "a-1", "a-1"] := by decide
+/-- F27 (fixed in /repo): the old scheme is not injective when a suffixed form is already a name -/
+theorem uniqNamesOld_collision_witness : uniqNamesOld ["a", "a", "a-1"] = ["a", "a-1", "a-1"] := by decide
+
+/-- `uniq_names[name]` of the `Counter` -/
+def cnt (c : List (String × Nat)) (n : String) : Nat := (c.lookup n).getD 0
+
+/-- the `while f"{name}-{k}" in taken: k += 1` loop: the least `k ≥ k0` whose suffixed form is free.  A free one
+    exists among any `|taken| + 1` consecutive candidates (distinct numbers give distinct strings), so the search is
+    bounded; the fall-through value is never produced (`nextFree_fresh`). -/
+def nextFree (taken : List String) (n : String) (k0 : Nat) : Nat :=
+  match (List.range (taken.length + 1)).find? (fun d => !taken.contains (n ++ "-" ++ toString (k0 + d))) with
+  | some d => k0 + d
+  | none => k0
+
+/-- `Phenotypes.write`'s loop over the names: the counter, the set of names that are taken (all given names plus every
+    suffixed form handed out so far), the names still to do -/
+def uniqGo : List (String × Nat) → List String → List String → List String
+  | _, _, [] => []
+  | c, taken, n :: rest =>
+    if cnt c n = 0 then n :: uniqGo ((n, 1) :: c) taken rest
+    else
+      let k := nextFree taken n (cnt c n)
+      (n ++ "-" ++ toString k) :: uniqGo ((n, k + 1) :: c) ((n ++ "-" ++ toString k) :: taken) rest
+
+def uniqNames (names : List String) : List String := uniqGo [] names names
+
+theorem uniqGo_length : ∀ (c : List (String × Nat)) (taken l : List String), (uniqGo c taken l).length = l.length
+  | _, _, [] => rfl
+  | c, taken, n :: rest => by
+    unfold uniqGo
+    split
+    · simp [uniqGo_length]
+    · simp [uniqGo_length]
+
+theorem uniqNames_length (names : List String) : (uniqNames names).length = names.length :=
+  uniqGo_length [] names names
 
 example : uniqNames ["h", "bmi", "h", "h"] = ["h", "bmi", "h-1", "h-2"] := by decide
+/-- the former collision: the second `a` skips the suffixed form that is a name in its own right -/
+example : uniqNames ["a", "a", "a-1"] = ["a", "a-2", "a-1"] := by decide
 
 end Pheno
